@@ -19,12 +19,24 @@ CHECKS = {
    "All trees up to a node bound assembled with the public constructors, all trees the parser returns for short token sequences, trees produced by preprocessing and deep chains: stored text/height at every node vs an independent renderer, print->parse round trip.", "§3 C06"),
  "C07": ("exploration", "bounded-exhaustive tree enumeration against an independent scope checker and de-Bruijn normaliser",
    "All parsed trees up to a node bound over variable names that collide with the internal ones in every order, with jumps everywhere: accept iff well-scoped, output exactly the depth-named alpha-variant, idempotent.", "§3 C07"),
+ "C08": ("exploration", "bounded-exhaustive enumeration of formulae x meaning-preserving rewrites, differential on the real entry points",
+   "For every formula up to a node bound (and the template families) every rewrite of finite families (all scope-respecting renamings into names that collide with the internal ones, whitespace patterns at every token boundary, redundant parentheses at every sub-formula, long/short spellings, constant spellings) is evaluated and must give the same set as the canonical text.", "§3 C08"),
  "C09": ("exploration", "bounded-exhaustive enumeration of sub-trees / formula lists against an independent alpha-equivalence decision and occurrence counter",
    "Every sub-tree of every preprocessed formula up to a node bound: canonical-form classes must coincide with alpha-equivalence classes (partition check = all pairs, plus explicit pairwise traversal), renaming total/injective/consistent, idempotence; duplicate marking of all single formulae and all lists <= 3 over a pool with jump/domain shapes vs an independent occurrence count. Uses the verif-hooks re-export of the private canonization module.", "§3 C09"),
+ "C10": ("model_checking", "bounded-exhaustive enumeration of substitution cases (formula x antichain of closed sub-formulae), differential on the real entry points",
+   "Every formula up to a node bound / template x every non-empty antichain (<= 3) of closed proper sub-formula occurrences replaced by wild-cards bound to the raw result of the sub-formula; the extended evaluation must equal the plain one (BDD equality); identity cases through all extended entry points with an empty context; bundled benchmark models in isolated child processes with wall limits.", "§3 C10"),
+ "C11": ("model_checking", "exhaustive enumeration of law instances: every coloured set of tiny networks as wild-card argument; declared argument family on bundled models",
+   "44 temporal laws + 3 graph-library laws instantiated with EVERY coloured state set (and all pairs where feasible) of tiny networks, anchored by the explicit-state oracle, and with a declared finite argument family on bundled models (up to 69 variables / 65 536 colours); both sides are evaluated by the tool and compared as sets.", "§3 C11"),
  "C12": ("model_checking", "explicit-state reference model checker + differential (shortcut vs pattern-defeating twin) over all small contexts",
    "Every one-hole context up to a node bound x the two shortcut patterns, logically identical twins that defeat the matcher, and near-miss families, on the core networks and label families: shortcut == twin as sets, everything == explicit-state oracle, inside the unit set.", "§3 C12"),
  "C13": ("model_checking", "explicit-state reference model checker on all formulae containing EW/AW",
    "All formulae up to a node bound that contain EW or AW on the core networks, compared point-wise with the oracle's weak-until definitions.", "§3 C13"),
+ "C15": ("model_checking", "bounded-exhaustive enumeration of formulae x spare-variable counts with explicit-state anchor",
+   "Every formula up to a node bound / template on graphs with k = d, d+1, d+3 spare variable sets: sanitised == raw point-wise == oracle; canonical variable set; subset of and usable with SymbolicAsyncGraph::new; BDD-identical across k.", "§3 C15"),
+ "C18": ("model_checking", "bounded-exhaustive differential: unsafe_ex vs standard evaluation on the loop-insensitive fragment / steady-state-free networks",
+   "All formulae of the loop-insensitive fragment up to a node bound on every core network, and all formulae over all operators on the networks whose independently computed transition systems have no steady state in any colour; raw results must be identical.", "§3 C18"),
+ "C20": ("model_checking", "exhaustive enumeration of (formula, colour) pairs: parametrised result sliced at each colour vs evaluation on the instantiated network",
+   "Every formula up to a node bound / template x EVERY valid colour of every multi-colour core network: states of the parametrised result at the colour == model_check_formula on pick_witness(colour) (== oracle, which evaluates colours in isolation). Bundled: partially erased myeloid (all 2 180 colours), sub-lattices of 64k-colour models in the thorough tier.", "§3 C20"),
  "C14": ("exploration", "bounded-exhaustive input enumeration through every string entry point under catch_unwind with a reference accept/reject oracle",
    "All short strings and token sequences, all label subsets for all small extended formulae, deep inputs; each through 21 string entry points on graphs with 0..3 spare variable sets; Ok/Err must match the reference parser + scope rules + label presence + k >= depth; a panic is always a violation.", "§3 C14"),
 }
